@@ -322,7 +322,7 @@ static Plan gen_plan(const string &cfg, uint64_t seed, long long index) {
     sim_rng w = sim_derive(rs, 1), s = sim_derive(rs, 2);
     static const int TS[] = { 2, 2, 2, 3, 3, 4, 4, 8, 16 };
     p.nthreads = TS[sim_below(&w, 9)];
-    if (sim_below(&w, 8) == 0 && !g_idn_tld_addrs.empty()) {
+    if (sim_below(&w, 12) == 0 && !g_idn_tld_addrs.empty()) {
         // "sweep": every thread looks up a large shared set of TLDs in its own order. Hashed or set-associative
         // caches only go wrong when two particular keys meet; a big key set makes them meet.
         p.nthreads = 2 + (int)sim_below(&w, 3);
